@@ -243,6 +243,7 @@ def r2_lossy_ins(c, facts):
 def run(c, facts):
     import c08
     import c09
+    import c10
     c.run(r1_field_flow, facts)
     c.run(r2_lossy_ins, facts)
     R3 = c.rule('C02.R3', 'NAMING: component names are injective over (module, node, instantiation) - shared with C09.R2')
@@ -253,9 +254,10 @@ def run(c, facts):
     c.shared(R4, c08.r3_eager, 'C08.R3', facts)
     c.run(r5_name_agree, facts)
     c.run(r6_enum_map, facts)
+    R10 = c.rule('C02.R10', 'RESOURCES-COMPLETE: every `res` statement of the main program is emitted (Program::resources yields all of them)')
+    c.run(lambda c: c10.accessor_complete(c, facts, R10, 'oal_syntax::parser::Program::resources', 'resource'))
     c.run(r7_fallback_order, facts)
     c.run(r8_ref_transparent, facts)
-    import c10
     R9 = c.rule('C02.R9', 'JOIN-AGREE: an import binds to the module that was loaded for it (shared with C10.R5)')
     c.shared(R9, c10.r5_join_agree, 'C10.R5', facts)
 
